@@ -6,15 +6,15 @@ use crate::ops::{Container, ALL_CONTAINERS};
 
 pub fn run(ctx: &mut Ctx, reg: &Registry) {
     let subs = subjects(reg);
-    let nvals = ctx.t(10, 80);
+    let nvals = nvals(ctx, 10, 80);
     for s in subs.iter() {
-        if !ctx.mine(s.index) || !ctx.wants_type(&s.label) {
+        if !ctx.mine(s.index) || !ctx.wants_type(&s.label) || !slow_keep(s) {
             continue;
         }
         let mut rng = Rng::derive(ctx.seed, &format!("c01/{}", s.label));
         check_subject(ctx, s, &mut rng, nvals);
     }
-    if ctx.mine(0) {
+    if ctx.mine(0) && !slow_build() {
         size_sweeps(ctx, reg);
     }
 }
@@ -41,6 +41,9 @@ fn check_subject(ctx: &mut Ctx, s: &Subject, rng: &mut Rng, nvals: usize) {
             }
         };
         for c in ALL_CONTAINERS {
+            if cfg!(miri) && !matches!(c, Container::Plain | Container::NoSchema) {
+                continue; // ring and bzip2 are foreign code that Miri cannot interpret
+            }
             // the on-disk encrypted container is slow (sha256 + bzip2 + file io): fewer values
             if c == Container::EncryptedFile && vi >= ctx.t(3, 20) {
                 continue;
